@@ -4,10 +4,10 @@ CHECK = {
                     "the standard library primitives (AES-GCM, ChaCha20-Poly1305, ECDSA, Ed25519, RSA, HMAC) are correct; the check is about which key, context, associated data and version the policy feeds them"],
     "units": [
         unit("keysutil", "keysutil", ["keysutil/c17_policy_test.go"], "^TestVerif_C17_Policy$",
-             quick={"checks": 1500, "shards": 1, "cap": 600, "steps": 30},
+             quick={"checks": 1200, "shards": 1, "cap": 600, "steps": 30},
              thorough={"checks": 2500, "shards": 16, "cap": 1800, "steps": 40}),
         unit("transit-api", "transit", ["transit/c17_api_test.go"], "^TestVerif_C17_API$",
-             quick={"checks": 1000, "shards": 1, "cap": 600, "steps": 25},
+             quick={"checks": 800, "shards": 1, "cap": 600, "steps": 25},
              thorough={"checks": 1500, "shards": 16, "cap": 1800, "steps": 35}),
     ],
 }
